@@ -35,4 +35,28 @@ theorem C07_announced (cfg : Cfg) (dict : Lookup) (evs : List REv) (b0 : UInt8) 
   rw [hfb] at g1 g2 g3
   exact ⟨h1, g1, g2, g3⟩
 
+/-- the other side of the limit: an announcement from a bare header (20) up to and including exactly 1 MiB is *not*
+refused on size grounds, and when the announced octets are there exactly `L` of them are taken - the limit is 1 MiB,
+not "about" 1 MiB -/
+theorem C07_within_limit (cfg : Cfg) (dict : Lookup) (evs : List REv) (b0 : UInt8) (L : Nat) (tail : Bytes)
+    (hlo : 20 ≤ L) (hhi : L ≤ 1048576) (hne : noEmpty evs) (hflat : flat evs = b0 :: be24 L ++ tail)
+    (hall : L ≤ (flat evs).length) :
+    (Codec.decode cfg dict evs).consumed = L ∧
+    (Codec.decode cfg dict evs).out ≠ .err .tooLarge ∧ (Codec.decode cfg dict evs).out ≠ .err .tooShort ∧
+    (Codec.decode cfg dict evs).out ≠ .err .eof ∧ (Codec.decode cfg dict evs).out ≠ .err .io := by
+  obtain ⟨evs1, hr, hf1, hne1⟩ := readExact_flat 4 evs hne (by rw [hflat]; simp [be24])
+  have hp : (flat evs).take 4 = b0 :: be24 L := by rw [hflat]; simp [be24]
+  rw [hp] at hr
+  have hfb : fromBe ((b0 :: be24 L).drop 1) = L := by simpa using fromBe_be24 L (by omega)
+  obtain ⟨evs2, hr2, hf2, _⟩ := readExact_flat (L - 4) evs1 hne1 (by rw [hf1]; simp; omega)
+  unfold Codec.decode
+  simp only [hr, hfb]
+  rw [if_neg (by omega), if_neg (by omega), if_neg (by omega)]
+  simp only [hr2]
+  have hl : ((flat evs1).take (L - 4)).length = L - 4 := by rw [List.length_take, hf1]; simp; omega
+  refine ⟨by simp only [hl]; omega, ?_, ?_, ?_, ?_⟩ <;> (split <;> simp)
+
+/-! non-vacuity: the boundary values themselves -/
+example : (20 : Nat) ≤ 1048576 ∧ (1048576 : Nat) ≤ 1048576 ∧ ¬ ((1048577 : Nat) ≤ 1048576) := by decide
+
 end Dia
